@@ -127,10 +127,97 @@ Proof.
   repeat split; symmetry; assumption.
 Qed.
 
+Lemma opt_eqb_Z_eq a b : opt_eqb Z.eqb a b = true <-> a = b.
+Proof.
+  destruct a as [x|], b as [y|]; cbn [opt_eqb]; split; intro H;
+    try reflexivity; try discriminate.
+  - apply Z.eqb_eq in H. subst. reflexivity.
+  - injection H as H. subst. apply Z.eqb_refl.
+Qed.
+
+Lemma opt_eqb_Z_refl a : opt_eqb Z.eqb a a = true.
+Proof. apply opt_eqb_Z_eq. reflexivity. Qed.
+
+Lemma check_row_obs2 c r : check_row c r = true ->
+  r_banked r = banked_find (c_bsize c) (c_blen c) (r_x r) /\
+  match r_bank r with
+  | None => True
+  | Some b => b = dispatch_bank (c_kind_empty c) (c_off c) (c_s c) (c_n c) (c_i c)
+                                (c_log2 c) (c_nb c) (r_x r)
+  end.
+Proof.
+  unfold check_row. intro H.
+  apply andb_true_iff in H. destruct H as [H H6].
+  apply andb_true_iff in H. destruct H as [_ H5].
+  apply mres_eqb_eq in H5. split; [symmetry; exact H5|].
+  destruct (r_bank r) as [b|]; [|exact I].
+  apply opt_eqb_Z_eq in H6. symmetry. exact H6.
+Qed.
+
+Lemma range_check_passes m nb : m < nb ->
+  ((Z.of_N m <? 0)%Z || (Z.of_N nb <=? Z.of_N m)%Z) = false.
+Proof.
+  intro H. apply orb_false_iff. split; [apply Z.ltb_ge|apply Z.leb_gt]; lia.
+Qed.
+
+Lemma dispatch_bank_identity off s n i log2 nb x : log2 < 64 -> 1 <= nb -> nb < two63 ->
+  dispatch_bank true off s n i log2 (Z.of_N nb) x = Some (Z.of_N (x / 2 ^ log2 mod nb)).
+Proof.
+  intros Hl Hn Hn63. unfold dispatch_bank, convert_address.
+  destruct (select_bank_eval log2 nb x Hl Hn Hn63) as [E Hm]. rewrite E.
+  rewrite (range_check_passes _ _ Hm). reflexivity.
+Qed.
+
+Lemma dispatch_bank_interleaved off s n i log2 nb x : wf s n -> x < two64 ->
+  log2 < 64 -> 1 <= nb -> nb < two63 ->
+  dispatch_bank false off s (Z.of_N n) (Z.of_N i) log2 (Z.of_N nb) x =
+    if ownedb s n i off x
+    then Some (Z.of_N (internal_of s n off x / 2 ^ log2 mod nb)) else None.
+Proof.
+  intros Hwf Hx Hl Hn Hn63. unfold dispatch_bank.
+  rewrite convert_address_agrees.
+  pose proof (conv_ok_model s n i off x Hwf Hx) as Hc. unfold conv_ok in Hc.
+  destruct (ownedb s n i off x).
+  - apply outcome_eqb_eq in Hc. rewrite Hc.
+    destruct (select_bank_eval log2 nb (internal_of s n off x) Hl Hn Hn63) as [E Hm]. rewrite E.
+    rewrite (range_check_passes _ _ Hm). reflexivity.
+  - apply outcome_eqb_eq in Hc. rewrite Hc. reflexivity.
+Qed.
+
+Lemma banked_ok_of_check c r : check_row c r = true -> banked_ok c r = true.
+Proof.
+  intro Hc. destruct (check_row_obs2 c r Hc) as [E _].
+  unfold banked_ok. rewrite E. unfold banked_find. apply mres_eqb_refl.
+Qed.
+
+Lemma bank_ok_of_check c r : r_x r < two64 -> check_row c r = true -> bank_ok c r = true.
+Proof.
+  intros Hx Hc. destruct (check_row_obs2 c r Hc) as [_ E].
+  unfold bank_ok. cbv zeta. destruct (r_bank r) as [b|]; [|reflexivity].
+  destruct ((c_log2 c <? 64) && (1 <=? c_nb c)%Z && (c_nb c <? Z.of_N two63)%Z) eqn:Hs;
+    [|reflexivity].
+  apply andb_true_iff in Hs. destruct Hs as [Hs H3].
+  apply andb_true_iff in Hs. destruct Hs as [H1 H2].
+  apply N.ltb_lt in H1. apply Z.leb_le in H2. apply Z.ltb_lt in H3.
+  assert (Enb : c_nb c = Z.of_N (Z.to_N (c_nb c))) by (rewrite Z2N.id; lia).
+  assert (Hnb1 : 1 <= Z.to_N (c_nb c)) by lia.
+  assert (Hnb2 : Z.to_N (c_nb c) < two63) by lia.
+  set (nb := Z.to_N (c_nb c)) in *. clearbody nb. rewrite Enb in E.
+  destruct (c_kind_empty c) eqn:Ek.
+  - rewrite dispatch_bank_identity in E by assumption. subst b. apply opt_eqb_Z_refl.
+  - destruct (cfg_ok c) eqn:Hcfg; [|reflexivity].
+    destruct (cfg_ok_spec c Hcfg) as [n [i [En [En' [Ei [Ei' [Hwf Hi]]]]]]].
+    rewrite En', Ei'. rewrite En, Ei in E.
+    rewrite (dispatch_bank_interleaved (c_off c) (c_s c) n i (c_log2 c) nb (r_x r)) in E
+      by assumption.
+    destruct (ownedb (c_s c) n i (c_off c) (r_x r)); subst b; apply opt_eqb_Z_refl.
+Qed.
+
 Lemma row_ok_of_check c r : r_x r < two64 -> check_row c r = true -> row_ok c r = true.
 Proof.
   intros Hx Hc. destruct (check_row_obs c r Hc) as [E1 [E2 [E3 E4]]].
-  unfold row_ok. cbv zeta. rewrite E1, E2, E3, E4.
+  unfold row_ok. rewrite (banked_ok_of_check c r Hc), (bank_ok_of_check c r Hx Hc).
+  cbv zeta. rewrite E1, E2, E3, E4.
   rewrite !outcome_eqb_refl. cbn [andb].
   destruct (cfg_ok c) eqn:Hcfg.
   - destruct (cfg_ok_spec c Hcfg) as [n [i [En [En' [Ei [Ei' [Hwf Hi]]]]]]].
